@@ -506,7 +506,7 @@ BUILTIN_EXC = {'RuntimeWarning', 'UserWarning', 'DeprecationWarning', 'Warning',
 
 # decorators whose effect on calls is modelled (binding of methods, memoisation) or nil (metadata, abstractness)
 KNOWN_DECORATORS = frozenset(('classmethod', 'staticmethod', 'property', 'lru_cache', 'cache', 'abstractmethod',
-                              'wraps', 'override', 'final', 'no_type_check'))      # the typing markers change nothing
+                              'wraps', 'override', 'final', 'no_type_check', 'cached_property'))      # the typing markers change nothing
 FILE_METHODS = frozenset(a_ for a_ in dir(__import__('io').TextIOWrapper) if not a_.startswith('__'))
 LOCAL_IMPORTS = '\x00imports'      # key of the per-scope table of function-local imports
 PLACEHOLDER_LOG = []     # where a formatted text had no abstract spelling and was replaced by a placeholder
@@ -616,6 +616,7 @@ class Interp:
             if ci_.base_exprs and ci_.name not in EXC_BASES:
                 EXC_BASES[ci_.name] = list(ci_.base_exprs)
         self.evaluating = set()       # ids of module-level right-hand sides being evaluated (X = f(X))
+        self.eq_depth = 0
         self.func_attrs = {}          # (def node id, closure id, name) -> attribute stored on a function object
         self.sym_strings = {}         # placeholder python str -> (width, cls): symbolic text values
         self.num_widths = {}          # repr(Rat) -> printed width of that number under %d / %.1f / str()
@@ -1845,8 +1846,21 @@ class Interp:
             if a is b:
                 return True
             if isinstance(a, Obj) and isinstance(b, Obj) and a.ci is not None and b.ci is not None:
-                # _pmuttBase.__eq__ compares to_dict(): undecided in general
-                raise Unsupported('equality of two model objects')
+                # a class of the package that defines __eq__ (_pmuttBase compares to_dict()): the method is ordinary
+                # code and is interpreted; without one, objects compare by identity
+                for x_, y_ in ((a, b), (b, a)):
+                    if self.repo.find_method(x_.ci, '__eq__', missing_ok=True):
+                        if self.eq_depth > 6:
+                            raise Unsupported('equality of two model objects (nested too deeply)')
+                        self.eq_depth += 1
+                        try:
+                            r_ = self.call_method(x_, '__eq__', [y_], {})
+                        finally:
+                            self.eq_depth -= 1
+                        if isinstance(r_, Raised):
+                            raise _RaisedExc(r_)
+                        return self.truth(r_)
+                return False
             return False        # a model object never equals a dict / None / str
         if isinstance(a, ListV) and isinstance(b, ListV):
             return len(a) == len(b) and all(self.struct_eq(x, y) for x, y in zip(a.items, b.items))
@@ -2093,6 +2107,9 @@ class Frame:
                 except _RaisedExc as r_:
                     if not exc_matches(r_.raised.exc, suppress):
                         raise
+                return
+            if len(st.items) == 1 and isinstance(v, CtxManager):
+                self.exec_ctx(st, v)
                 return
             files_ = [x_ for x_ in (self.ev(i_.optional_vars) if isinstance(i_.optional_vars, ast.Name) else None
                                     for i_ in st.items) if isinstance(x_, Obj) and '__mode__' in x_.attrs]
@@ -2371,6 +2388,47 @@ class Frame:
                 raise
         else:
             self.exec_block(st.orelse)
+
+    def exec_ctx(self, st, cm):
+        """`with f(...) [as x]:` where f is a generator function under contextlib.contextmanager"""
+        I = self.I
+        fn = cm.fv.fn
+        body = body_wo_doc(fn)
+        # the one yield: a statement of the function body, or the only statement of a try block with a finally
+        k_, in_try = None, False
+        for i_, s_ in enumerate(body):
+            if isinstance(s_, ast.Expr) and isinstance(s_.value, ast.Yield):
+                k_ = i_
+            elif isinstance(s_, ast.Try) and len(s_.body) == 1 and isinstance(s_.body[0], ast.Expr) and \
+                    isinstance(s_.body[0].value, ast.Yield) and not s_.handlers and not s_.orelse:
+                k_, in_try = i_, True
+        n_yields = sum(isinstance(x_, (ast.Yield, ast.YieldFrom)) for x_ in own_nodes(fn))
+        if k_ is None or n_yields != 1:
+            raise Unsupported('a context manager whose yield is not a plain statement of the function', st,
+                              self.module.relpath)
+        qual = (cm.fv.owner.qual + '.' if cm.fv.owner else cm.fv.module.name + '.') + fn.name
+        args = ([cm.fv.self_obj] if cm.fv.self_obj is not None else []) + list(cm.args)
+        env = I._bind(cm.fv.module, fn, cm.args, cm.kwargs, cm.fv.self_obj, cm.fv.owner, qual, cm.fv.defaults)
+        if cm.fv.closure is not None:
+            env = Env(cm.fv.closure, env)
+        sub = Frame(I, cm.fv.module, env, cm.fv.owner, cm.fv.self_obj if cm.fv.self_obj is not None
+                    else cm.fv.frame_self)
+        sub.fn = fn
+        sub.exec_block(body[:k_])
+        y_ = body[k_].body[0].value if in_try else body[k_].value
+        val = sub.ev(y_.value) if y_.value is not None else None
+        if st.items[0].optional_vars is not None:
+            self.assign(st.items[0].optional_vars, val)
+        post = (body[k_].finalbody if in_try else []) + list(body[k_ + 1:])
+        if in_try:
+            try:
+                self.exec_block(st.body)
+            finally:
+                sub.exec_block(body[k_].finalbody)
+            sub.exec_block(body[k_ + 1:])
+        else:
+            self.exec_block(st.body)        # an exception in the block is raised at the yield: the rest is not run
+            sub.exec_block(post)
 
     def exec_for(self, st):
         I = self.I
@@ -3171,6 +3229,8 @@ class Frame:
                     return r_
                 return nd(cur.items[self.index(ix, len(cur), n)], ixs[1:])
             return nd(base, list(idx.items))
+        if isinstance(base, ListV) and (getattr(base, 'is_set', False) or is_iter(base)):
+            raise _RaisedExc(Raised('TypeError', n))        # a set / an iterator is not subscriptable
         if isinstance(base, ListV):
             return base.items[self.index(idx, len(base), n)]
         if isinstance(base, DictV):
@@ -3484,6 +3544,15 @@ class Frame:
                 if any(ast.unparse(d) == 'property' for d in fn.decorator_list):
                     return I.call_function(owner.module, fn, [], {}, self_obj=obj, owner=owner,
                                            name='%s.%s' % (owner.qual, attr))
+                if any(ast.unparse(d).split('.')[-1] == 'cached_property' for d in fn.decorator_list):
+                    # computed on the first read and kept in the instance's __dict__ (a later read finds it there;
+                    # deleting it makes the next read compute again)
+                    cv_ = I.call_function(owner.module, fn, [], {}, self_obj=obj, owner=owner,
+                                          name='%s.%s' % (owner.qual, attr))
+                    if isinstance(cv_, Raised):
+                        raise _RaisedExc(cv_)
+                    obj.attrs[attr] = cv_
+                    return cv_
                 return FuncRef(owner.module, fn, obj, owner)
             # attribute defined in a class body (a constant, a table, a namedtuple type): read through the instance
             for k in obj.ci.mro:
@@ -5154,6 +5223,13 @@ def _vec_norm(v):
 def _np_array(I, fr, args, kwargs, n):
     v = _vec_norm(_arg(args, kwargs, 0, 'object'))
     tag = _dtype_tag(_arg(args, kwargs, 1, 'dtype', None))
+    ndmin = kwargs.get('ndmin')
+    if ndmin is not None:
+        nd_ = _as_int(ndmin, n)
+        if nd_ not in (0, 1):
+            raise Unsupported('np.array(ndmin=%d)' % nd_, n)
+        if nd_ == 1 and isinstance(v, (Rat, SumV)):
+            v = ListV([v])              # a scalar becomes an array with one entry; a vector stays what it is
     if tag is not None and tag != 'float':
         # conversion to an integer (or other) element type changes the values: not modelled element by element
         def integral(x):
@@ -5891,7 +5967,39 @@ def _consecutive_groups(I, fr, args, kwargs, n):
             else:
                 raise Unsupported('difference of symbolic integers is not a constant', n)
         groups.append([x])
-    return ListV([ListV(g) for g in groups])
+    outer = ListV([])
+    gl = []
+    for g in groups:
+        gv = ListV(g)
+        gv.is_iterator = True           # every group is an iterator over ONE shared source
+        gl.append(gv)
+    outer.items = _SharedGroups(gl)
+    outer.is_iterator = True            # and the groups come from a one-shot iterator
+    return outer
+
+
+class _SharedGroups(list):
+    """the groups itertools.groupby-style iterators hand out share their source: asking for the next group (or running
+    the outer iterator to its end) drops what is left of the group handed out before"""
+    last = None
+
+    def pop(self, k=-1):
+        g = list.pop(self, k)
+        if self.last is not None:
+            self.last.items[:] = []
+        self.last = g
+        return g
+
+    def __delitem__(self, k):
+        gone = self[k] if isinstance(k, slice) else [self[k]]
+        list.__delitem__(self, k)
+        if self.last is not None:
+            self.last.items[:] = []
+        for g in gone[:-1]:
+            g.items[:] = []
+        self.last = gone[-1] if gone else self.last
+        if not self and self.last is not None and len(gone) > 1:
+            self.last.items[:] = []     # the outer iterator was run to its end in one go: nothing is left anywhere
 
 
 class ArgV:
@@ -6374,6 +6482,22 @@ def _np_concatenate(I, fr, args, kwargs, n):
     r = ListV(out)
     r.is_array = True
     return r
+
+
+class CtxManager:
+    """what a function decorated with contextlib.contextmanager returns when it is called: entering runs the function up
+    to its yield (the value goes to the `as` name), leaving runs the rest - after the block, or in any case when the
+    yield stands in a try ... finally"""
+
+    def __init__(self, fv, args, kwargs):
+        self.fv, self.args, self.kwargs = fv, args, kwargs
+
+
+def _contextmanager(I, fr, args, kwargs, n):
+    fv = args[0]
+    if not (isinstance(fv, FuncRef) and not isinstance(fv.fn, ast.Lambda)):
+        raise Unsupported('contextmanager of %r' % (fv,), n)
+    return _stdlib.CallableV(lambda I_, fr_, a, k, n_: CtxManager(fv, list(a), dict(k)), 'contextmanager')
 
 
 class CatchWarnings:
@@ -6957,6 +7081,7 @@ NATIVE = {
     'numpy.concatenate': _np_concatenate,
     'warnings.warn': _warn,
     'warnings.catch_warnings': _catch_warnings,
+    'contextlib.contextmanager': _contextmanager,
     'warnings.simplefilter': lambda I, fr, args, kwargs, n: _add_filter(I, args, kwargs, n, True),
     'warnings.filterwarnings': lambda I, fr, args, kwargs, n: _add_filter(I, args, kwargs, n, False),
     'numpy.errstate': lambda I, fr, args, kwargs, n: None,
